@@ -732,7 +732,16 @@ func checkEmptyStepSendable(c *Ctx, r *Report, rule string) {
 			return
 		}
 		l := linOf(bo.X, 0).addScaled(linOf(bo.Y, 0), -1)
-		if len(l.coef) != 1 || l.coef["len("+fn.Params[2].Name()+")"] != 1 {
+		inputKey := "len(" + fn.Params[2].Name() + ")"
+		for _, side := range []ssa.Value{bo.X, bo.Y} {
+			// the input parameter may have been spilled to a cell because a closure captures it
+			if cl, isCall := side.(*ssa.Call); isCall && len(cl.Call.Args) == 1 {
+				if b, isB := cl.Call.Value.(*ssa.Builtin); isB && b.Name() == "len" && isParamValue(cl.Call.Args[0], fn.Params[2]) {
+					inputKey = "len(" + cl.Call.Args[0].Name() + ")"
+				}
+			}
+		}
+		if len(l.coef) != 1 || l.coef[inputKey] != 1 {
 			return
 		}
 		t := conds[0].Truth
